@@ -68,17 +68,29 @@ def tree_hash():
     return _TREE
 
 
-def stage_dir(key):
+_SPEC = None
+
+
+def spec_hash():
+    """TLC engine results depend on the specification and its configuration only (not on /repo): they are cached under the
+    hash of spec/ so that a change of the code under test does not re-run TLC on an unchanged specification."""
+    global _SPEC
+    if _SPEC is None:
+        _SPEC = 'spec-' + _hash_files([SPEC])
+    return _SPEC
+
+
+def stage_dir(key, scope='tree'):
     k = hashlib.sha256(json.dumps(key, sort_keys=True).encode()).hexdigest()[:16]
-    d = os.path.join(CACHE, tree_hash(), k)
+    d = os.path.join(CACHE, spec_hash() if scope == 'spec' else tree_hash(), k)
     return d
 
 
-def stage(key, fn):
+def stage(key, fn, scope='tree'):
     """Runs fn(dir) -> dict once per (tree, key); the result and its files are cached under .cache.
     A file lock makes concurrent checks wait for each other instead of computing a stage twice."""
     import fcntl
-    d = stage_dir(key)
+    d = stage_dir(key, scope)
     os.makedirs(os.path.dirname(d), exist_ok=True)
     res = os.path.join(d, 'result.json')
     with open(d + '.lock', 'w') as lk:
@@ -105,8 +117,12 @@ def prune_cache(keep=3):
     """Keeps the cache small: only the most recent tree hashes survive."""
     if not os.path.isdir(CACHE):
         return
-    ds = [os.path.join(CACHE, x) for x in os.listdir(CACHE)]
+    ds = [os.path.join(CACHE, x) for x in os.listdir(CACHE) if not x.startswith('spec-')]
     ds = [d for d in ds if os.path.isdir(d)]
+    sp = sorted([os.path.join(CACHE, x) for x in os.listdir(CACHE) if x.startswith('spec-')], key=os.path.getmtime, reverse=True)
+    for d in sp[2:]:
+        if d != os.path.join(CACHE, spec_hash()):
+            shutil.rmtree(d, ignore_errors=True)
     ds.sort(key=lambda d: os.path.getmtime(d), reverse=True)
     cur = os.path.join(CACHE, tree_hash())
     for d in ds[keep:]:
@@ -684,7 +700,7 @@ def engine_stage(name, tier):
             fh.write('\n'.join(l for l in txt.splitlines() if not l.startswith('<<"RP"'))[-200000:])
         return res
 
-    return stage(key, run)
+    return stage(key, run, scope='spec')
 
 
 # --------------------------------------------------------------------------- known findings
